@@ -7,6 +7,9 @@
         group is attached to the group's head; user ids and subkeys go to the most recent primary key; a primary starts a new key
   C14.4 copies carry the certificate state (key packet, user ids, subkeys, signatures, armor headers, received hashed octets)
   C14.5 attaching: signatures are inserted (never replaced) into sorted collections; embedded cross-signatures are extracted
+  C14.6 "a copy of a key exports identically": __copy__ of every material class a key export serialises - key material
+        (fallback container included), signature material (SignatureV4.pubalg dispatch, fallback included) - carries
+        every attribute its serialiser reads (shared implementation: sa.families.check_copy_carries_serialised)
 """
 import ast
 import re
@@ -25,6 +28,7 @@ def run(rep, prog, tier):
     rep.rule('C14.3', 'import grouping and attachment', floor=8)
     rep.rule('C14.4', 'copy completeness', floor=9)
     rep.rule('C14.5', 'attachment inserts; embedded signatures extracted', floor=5)
+    rep.rule('C14.6', 'copies of key material and signature material carry every attribute their serialiser reads', floor=12)
     rep.assume('SorteDeque.insort keeps elements with equal keys (bisect insertion, no replacement)')
     rep.assume('SubPackets: `name in sp` holds exactly when sp[name] is a non-empty list (lookup by subpacket name in both areas)')
 
@@ -33,6 +37,17 @@ def run(rep, prog, tier):
     grouping(rep, prog)
     copies(rep, prog)
     attach(rep, prog)
+    material_copies(rep, prog)
+
+
+def material_copies(rep, prog):
+    """C14.6: the packet-level half of "a copy of a key exports identically to the original"."""
+    from sa import families
+    families.check_copy_carries_serialised(rep, prog, 'C14.6')                   # key material classes + fallback container
+    g, sigs = families.dispatched_material(prog, 'pgpy.packet.packets', 'SignatureV4', 'pubalg_int', 'signature')
+    rep.saw(fn=g)
+    roots = [(cn, 'signature material') for cn in sorted(set(sigs.values()))]
+    families.check_copy_carries_serialised(rep, prog, 'C14.6', roots=roots)
 
 
 def _one_packet(body, text):
